@@ -243,8 +243,13 @@ def r2_guards(ctx):
     r2b_bound_origin(ctx)
     # id scanner: loop bounded by a numeric constant, overflow rejected
     from ..sym import with_new_helpers
+    # the scanner: the loop / generator that tests characters with isdigit
     loops = [n for g in with_new_helpers(m, f)
-             for n in walk_own(g.node) if isinstance(n, ast.While)]
+             for n in walk_own(g.node)
+             if isinstance(n, (ast.While, ast.For, ast.GeneratorExp,
+                               ast.ListComp)) and any(
+                 isinstance(x, ast.Attribute) and x.attr == 'isdigit'
+                 for x in ast.walk(n))]
     bounded = False
     for lp in loops:
         for c in ast.walk(lp):
